@@ -176,6 +176,16 @@ def run(ctx):
     if rrace.violated != "NoUnsyncTreeAccess":
         raise Infra("NodeLocks.tla with DevCachedReadUnlocked=TRUE: TLC did not find the unsynchronised access (violated=%s error=%s)"
                     % (rrace.violated, rrace.error))
+    if not quick:
+        # design exploration of a candidate repair of the recorded C11 finding (cached verifications request no rollback):
+        # letting the loop wait for the block processor closes a wait cycle through newEpochCh unless the queue has room
+        rcw = ctx.tlc("chain/NodeLocks", "cfg/NodeLocks.cachedwait.cfg", deadlock=True, workers=TLC_WORKERS, timeout=600,
+                      tag="candidate-repair:cached-rollback-waits")
+        if rcw.violated != "deadlock":
+            raise Infra("NodeLocks.tla with CachedRollback=TRUE, EpochCap=1: TLC did not find the wait cycle (violated=%s error=%s)"
+                        % (rcw.violated, rcw.error))
+        ctx.tlc_design("chain/NodeLocks", "cfg/NodeLocks.cachedroom.cfg", deadlock=True, workers=TLC_WORKERS, timeout=600,
+                       tag="candidate-repair:cached-rollback-waits, queue with room")
     # ------------------------------------------------------------------ directed R
     stats = dict(replayed=0, reproduced=0, unreproduced=0, notes=[])
     cexes = [(os.path.join(rdev.scratch, "cex.json"), "bfs")]
